@@ -680,3 +680,435 @@ if __name__ == "__main__":
         print(k, "ok" if ok else t)
         if ok and "-v" in sys.argv:
             print(t)
+
+
+# ====================================================================== stage 3: the whole function
+PRELUDE3 = r"""
+(* iterating instruction_form.port_uops: a list yields its micro-ops; a dict yields its int keys, and the first thing the
+   loop body does with one is `uop[0]` -> TypeError (an empty dict: no iteration at all) *)
+Definition py_iter_uops {T} (u : @uops T) : res (list (T * list string)) :=
+  match u with UList us => Ok us | UDict [] => Ok [] | UDict (_ :: _) => Err EType end.
+(* using None where a list is needed (iteration, subscript, get_throughput_sum): TypeError *)
+Definition py_some {A} (o : option A) : res A := match o with Some x => Ok x | None => Err EType end.
+(* sys.maxsize is None in `option T`: every port sum is below it *)
+Definition py_lt_maxsize {T} (N : NumOps T) (x : T) (b : option T) : bool := match b with None => true | Some y => nltb N x y end.
+Definition py_gt_maxsize {T} (N : NumOps T) (x : T) (b : option T) : bool := match b with None => false | Some y => nltb N y x end.
+"""
+
+
+class Normalize2(Normalize):
+    """whole function: instruction_form -> kernel[idx] inside the instruction loop (THE ALIASING FACT);
+         X[i].attr = v            -> X = __setattr(X, i, 'attr', v)
+         X.reverse()              -> X = __reversed(X)
+         self.assign_optimal_throughput(X, i)  -> X = __rec(X, i)        (the callee mutates its argument in place)
+         for u in kernel[idx].port_uops: ...   -> followed by  kernel = __rowback(kernel, idx)   (the row view is written back)"""
+
+    def __init__(self):
+        Normalize.__init__(self, set())
+        self.depth = 0
+
+    def visit_For(self, n):
+        if ast.unparse(n.target) == "(idx, instruction_form)":
+            self.depth += 1
+            n.iter = self.visit(n.iter)
+            n.body = self.block(n.body)
+            self.depth -= 1
+            return n
+        n = self.generic_visit(n)
+        if ast.unparse(n.iter) == "kernel[idx].port_uops":
+            tgt = ast.copy_location(ast.Name(id="kernel", ctx=ast.Store()), n)
+            val = pseudo("__rowback", [ast.copy_location(ast.Name(id="kernel", ctx=ast.Load()), n),
+                                       ast.copy_location(ast.Name(id="idx", ctx=ast.Load()), n)], n)
+            return [n, ast.copy_location(ast.Assign(targets=[tgt], value=val), n)]
+        return n
+
+    def block(self, stmts):
+        out = []
+        for s in stmts:
+            r = self.visit(s)
+            out.extend(r if isinstance(r, list) else [r])
+        return out
+
+    def visit_Name(self, n):
+        if self.depth and n.id == "instruction_form" and isinstance(n.ctx, ast.Load):
+            k = ast.copy_location(ast.Name(id="kernel", ctx=ast.Load()), n)
+            i = ast.copy_location(ast.Name(id="idx", ctx=ast.Load()), n)
+            return ast.copy_location(ast.Subscript(value=k, slice=i, ctx=ast.Load()), n)
+        return n
+
+    def visit_Assign(self, n):
+        n = self.generic_visit(n)
+        if len(n.targets) == 1 and isinstance(n.targets[0], ast.Attribute):
+            t = n.targets[0]
+            if isinstance(t.value, ast.Subscript) and isinstance(t.value.value, ast.Name) and not isinstance(t.value.slice, ast.Slice):
+                x = t.value.value.id
+                tgt = ast.copy_location(ast.Name(id=x, ctx=ast.Store()), n)
+                val = pseudo("__setattr", [ast.copy_location(ast.Name(id=x, ctx=ast.Load()), n), t.value.slice,
+                                           ast.copy_location(ast.Constant(value=t.attr), n), n.value], n)
+                return ast.copy_location(ast.Assign(targets=[tgt], value=val), n)
+        return n
+
+    def visit_Expr(self, n):
+        n = Normalize.visit_Expr(self, n)
+        if not isinstance(n, ast.Expr):
+            return n
+        c = n.value
+        if isinstance(c, ast.Call) and isinstance(c.func, ast.Attribute) and c.func.attr == "reverse" and isinstance(c.func.value, ast.Name) \
+                and not c.args and not c.keywords:
+            x = c.func.value.id
+            tgt = ast.copy_location(ast.Name(id=x, ctx=ast.Store()), n)
+            return ast.copy_location(ast.Assign(targets=[tgt], value=pseudo("__reversed", [c.func.value], n)), n)
+        if is_self_call(c, "assign_optimal_throughput") and len(c.args) == 2 and isinstance(c.args[0], ast.Name):
+            tgt = ast.copy_location(ast.Name(id=c.args[0].id, ctx=ast.Store()), n)
+            return ast.copy_location(ast.Assign(targets=[tgt], value=pseudo("__rec", list(c.args), n)), n)
+        return n
+
+
+PSEUDO = ("__itemsetter", "__del", "__setattr", "__reversed", "__rec", "__rowback")
+INSTR_FIELDS = {"port_pressure": ("i_pp", "list[num]"), "throughput": ("i_tp", "num"), "port_uops": ("i_uops", "uops")}
+SNAP = ("env", "pending", "loop_iters", "ntemp", "closures", "fresh", "aliased", "mutated", "may_mutate", "defs", "break_sites",
+        "loop_state", "lifted_names", "atypes", "shared", "refined", "assumptions", "extra_params", "view", "nsc")
+
+
+def reads(node, name):
+    return [n for n in ast.walk(node) if isinstance(n, ast.Name) and n.id == name and isinstance(n.ctx, ast.Load)]
+
+
+def definite(stmts, name, defined):
+    """every read of `name` in stmts is preceded, on every path through stmts, by an assignment to it; returns whether
+    `name` is defined at the end.  Conservative (loops: the body may run zero times)."""
+    for st in stmts:
+        if isinstance(st, ast.If):
+            if reads(st.test, name) and not defined:
+                raise Unsupported("%s may be read before it is bound at line %d" % (name, st.lineno))
+            a = definite(st.body, name, defined)
+            b = definite(st.orelse, name, defined)
+            defined = a and b
+        elif isinstance(st, ast.For):
+            if reads(st.iter, name) and not defined:
+                raise Unsupported("%s may be read before it is bound at line %d" % (name, st.lineno))
+            definite(st.body, name, defined)
+        elif isinstance(st, ast.Assign) and len(st.targets) == 1 and isinstance(st.targets[0], ast.Name):
+            if reads(st.value, name) and not defined:
+                raise Unsupported("%s may be read before it is bound at line %d" % (name, st.lineno))
+            if st.targets[0].id == name:
+                defined = True
+        else:
+            if reads(st, name) and not defined:
+                raise Unsupported("%s may be read before it is bound at line %d" % (name, st.lineno))
+    return defined
+
+
+class FullTr(BalTr):
+    """the whole of assign_optimal_throughput (see Normalize2); result = the final value of the parameter `kernel`"""
+
+    def __init__(self, unit, fdef, sig):
+        BalTr.__init__(self, unit, fdef, sig)
+        self.atypes = {}              # name -> types assigned to it (first pass over a loop body)
+        self.shared = set()           # list variables that currently share their object with another variable
+        self.refined = {}             # unparsed attribute path -> scrutinee variable holding its (refined) value
+        self.assumptions = []
+        self.nsc = 0
+        self.result = "kernel"
+
+    # ----------------------------------------------------------------- helpers
+    def snapshot(self):
+        return {k: copy.deepcopy(getattr(self, k)) for k in SNAP}, dict(self.unit.consts)
+
+    def restore(self, snap):
+        for k, v in snap[0].items():
+            setattr(self, k, v)
+        self.unit.consts = snap[1]
+
+    def unopt(self, v, t, e):
+        """a value that must be a list: None -> TypeError"""
+        if t.startswith("opt[list["):
+            return self.hoist("py_some %s" % v), t[4:-1]
+        return v, t
+
+    def can_mutate(self, name, what, ln):
+        if name in self.loop_iters:
+            raise Unsupported("%s of the iterated list %s at line %d" % (what, name, ln))
+        if name not in self.fresh and name not in self.may_mutate:
+            raise Unsupported("%s of %s, which is not a list this function owns (aliasing) at line %d" % (what, name, ln))
+        if name in self.shared:
+            raise Unsupported("%s of %s while another variable shares the object (aliasing) at line %d" % (what, name, ln))
+
+    def coerce_to(self, v, t, want, ln):
+        if t == want:
+            return v
+        if want.startswith("opt[") and t == "none":
+            return "None"
+        if want.startswith("opt[") and t == want[4:-1]:
+            return "(Some %s)" % v
+        if want == "numinf" and t in ("num", "int"):
+            return "(Some %s)" % self.as_num(v, t)
+        if want == "uops" and t == "list[%s]" % UOP_T:
+            return "(UList %s)" % v
+        if want == "num" and t == "int":
+            return self.as_num(v, t)
+        raise Unsupported("value of type %s where %s is expected at line %d" % (t, want, ln))
+
+    # ----------------------------------------------------------------- expressions
+    def truth(self, v, t, e):
+        if t.startswith("list["):
+            return "(match %s with [] => false | _ :: _ => true end)" % v
+        return BalTr.truth(self, v, t, e)
+
+    def e_Attribute(self, e):
+        key = ast.unparse(e)
+        if key == "sys.maxsize" and "sys" not in self.env:
+            if not getattr(self.unit, "has_sys", False):
+                raise Unsupported("sys is not the module sys")
+            return "None", "numinf"
+        if key in self.refined:
+            n = self.refined[key]
+            return self.unit.ident(n), self.env[n]
+        if e.attr in INSTR_FIELDS:
+            v, t = self.expr(e.value)
+            if t == "instr":
+                proj, ft = INSTR_FIELDS[e.attr]
+                return "(%s %s)" % (proj, v), ft
+            raise Unsupported("attribute .%s on %s at line %d" % (e.attr, t, e.lineno))
+        return BalTr.e_Attribute(self, e)
+
+    def e_Subscript(self, e):
+        if isinstance(e.slice, ast.Slice):
+            s = e.slice
+            if s.upper is None and s.step is None and isinstance(s.lower, ast.Constant) and type(s.lower.value) is int and s.lower.value >= 0:
+                v, t = self.expr(e.value)
+                if t.startswith("list["):
+                    return "(skipn %d%%nat %s)" % (s.lower.value, v), t
+            raise Unsupported("slice at line %d" % e.lineno)
+        if isinstance(e.value, ast.Name) and self.env.get(e.value.id, "").startswith("opt[list["):
+            v, t = self.unopt(*self.expr(e.value), e)
+            i, it = self.expr(e.slice)
+            if it != "idx":
+                raise Unsupported("subscript %s[%s] at line %d" % (t, it, e.lineno))
+            return self.hoist("nth_res %s %s" % (v, i)), t[5:-1]
+        return BalTr.e_Subscript(self, e)
+
+    def kernel_view(self, e):
+        if isinstance(e, ast.Name) and self.env.get(e.id, "").startswith("opt[list[instr"):
+            v, t = self.unopt(*self.expr(e), e)
+            return v
+        return BalTr.kernel_view(self, e)
+
+    def compare1(self, l, op, r, e):
+        if isinstance(op, (ast.Lt, ast.Gt)):
+            n, nt = len(self.pending), self.ntemp
+            lv, lt = self.expr(l)
+            rv, rt = self.expr(r)
+            if rt == "numinf" and lt in ("num", "int"):
+                return "(py_%s_maxsize N %s %s)" % ("lt" if isinstance(op, ast.Lt) else "gt", self.as_num(lv, lt), rv)
+            if "numinf" in (lt, rt):
+                raise Unsupported("comparison with sys.maxsize at line %d" % e.lineno)
+            del self.pending[n:]
+            self.ntemp = nt
+        return BalTr.compare1(self, l, op, r, e)
+
+    def e_Call(self, e):
+        f, a = e.func, e.args
+        if e.keywords:
+            raise Unsupported("keyword arguments at line %d" % e.lineno)
+        if isinstance(f, ast.Name) and f.id not in self.env:
+            if f.id == "deepcopy" and len(a) == 1:
+                if not getattr(self.unit, "has_deepcopy", False):
+                    raise Unsupported("deepcopy is not copy.deepcopy")
+                return self.expr(a[0])                    # values: a copy is the value
+            if f.id == "enumerate" and len(a) == 1:
+                v, t = self.unopt(*self.expr(a[0]), e)
+                if t.startswith("list["):
+                    return "(py_enumerate %s)" % v, "list[tuple[idx,%s]]" % t[5:-1]
+                raise Unsupported("enumerate(%s) at line %d" % (t, e.lineno))
+            if f.id == "__setattr":
+                name, attr = a[0].id, a[2].value
+                if self.env.get(name) != "list[instr]" or attr not in ("port_uops", "port_pressure"):
+                    raise Unsupported("store into attribute .%s of an element of %s at line %d" % (attr, name, e.lineno))
+                self.can_mutate(name, "element attribute store", e.lineno)
+                self.mutated.add(name)
+                vv, vt = self.expr(a[3])                  # Python: the value first, then the target's sub-expressions
+                vv = self.coerce_to(vv, vt, INSTR_FIELDS[attr][1], e.lineno)
+                iv, it = self.expr(a[1])
+                if it != "idx":
+                    raise Unsupported("element index of type %s at line %d" % (it, e.lineno))
+                x = self.unit.ident(name)
+                o = self.hoist("nth_res %s %s" % (x, iv))
+                new = "(mkinstr (i_tp %s) %s (i_uops %s))" % (o, vv, o) if attr == "port_pressure" else "(mkinstr (i_tp %s) (i_pp %s) %s)" % (o, o, vv)
+                return self.hoist("set_nth %s %s %s" % (x, iv, new)), "list[instr]"
+            if f.id == "__reversed":
+                name = a[0].id
+                if not self.env.get(name, "").startswith("list["):
+                    raise Unsupported(".reverse() of %s at line %d" % (self.env.get(name), e.lineno))
+                self.can_mutate(name, ".reverse()", e.lineno)
+                self.mutated.add(name)
+                return "(rev %s)" % self.unit.ident(name), self.env[name]
+            if f.id == "__rec":
+                name = a[0].id
+                if self.env.get(name) != "list[instr]":
+                    raise Unsupported("recursive call on %s at line %d" % (self.env.get(name), e.lineno))
+                self.can_mutate(name, "recursive call (mutates its argument)", e.lineno)
+                self.mutated.add(name)
+                iv, it = self.expr(a[1])
+                if it != "idx":
+                    raise Unsupported("recursive call with start of type %s at line %d" % (it, e.lineno))
+                self.extra_params["rec_"] = "REC"
+                return self.hoist("rec_ %s %s" % (self.unit.ident(name), iv)), "list[instr]"
+            if f.id == "__rowback":
+                if not self.view or (a[0].id, a[1].id) != self.view or ROW not in self.env:
+                    raise Unsupported("row view closed twice at line %d" % e.lineno)
+                v = "(set_pp %s %s %s)" % (self.unit.ident(a[0].id), self.unit.ident(a[1].id), self.unit.ident(ROW))
+                self.view = None
+                del self.env[ROW]
+                return v, "list[instr]"
+        if isinstance(f, ast.Attribute):
+            key = ast.unparse(f)
+            if key == "self._machine_model.get_ports" and not a:
+                self.extra_params["self_ports"] = "list[str]"
+                return "self_ports", "list[str]"
+            if key == "self._machine_model.average_port_pressure" and len(a) == 1:
+                v, t = self.expr(a[0])
+                v = self.coerce_to(v, t, "uops", e.lineno)
+                self.extra_params["self_ports"] = "list[str]"
+                return self.hoist("g_average_port_pressure N self_ports %s (0)%%Z" % v), "list[num]"
+            if f.attr == "values" and not a:
+                n, nt = len(self.pending), self.ntemp
+                v, t = self.expr(f.value)
+                if t.startswith("dict[int,"):
+                    return v, "list[%s]" % targs(t)[1]        # the values in key order (data representation)
+                del self.pending[n:]
+                self.ntemp = nt
+        return BalTr.e_Call(self, e)
+
+    def is_fresh(self, e):
+        if isinstance(e, ast.Call) and isinstance(e.func, ast.Name) and e.func.id == "deepcopy":
+            return True
+        if isinstance(e, ast.Call) and isinstance(e.func, ast.Attribute) and ast.unparse(e.func) == "self._machine_model.average_port_pressure":
+            return True
+        return BalTr.is_fresh(self, e)
+
+    # ----------------------------------------------------------------- statements
+    def s_return(self, s):
+        if s.value is None:
+            if self.loop_state[-1] is not None or len(self.loop_iters) > 0:
+                raise Unsupported("return inside a loop at line %d" % s.lineno)
+            return "Ok %s" % self.unit.ident(self.result)         # the caller sees the (mutated) kernel
+        raise Unsupported("return of a value at line %d" % s.lineno)
+
+    def s_assign(self, target, value, op, s):
+        ln = s.lineno
+        if op is None and isinstance(target, ast.Name):
+            name = target.id
+            if name in self.loop_iters:
+                raise Unsupported("assignment to the iterated list %s at line %d" % (name, ln))
+            for k in [k for k in self.refined if k.startswith(name + "[") or k.startswith(name + ".")]:
+                del self.refined[k]
+            is_pseudo = isinstance(value, ast.Call) and isinstance(value.func, ast.Name) and value.func.id in PSEUDO
+            v, t = self.expr(value)
+            self.atypes.setdefault(name, []).append(t)
+            if name in self.env:
+                v = self.coerce_to(v, t, self.env[name], ln)
+                t = self.env[name]
+            self.closures.pop(name, None)
+            pre = self.take()
+            self.env[name] = t
+            if not is_pseudo and (t.startswith("list[") or t.startswith("opt[list[") or t.startswith("dict[")):
+                if isinstance(value, ast.Name):
+                    self.shared.update((name, value.id))          # two names, one object
+                    self.fresh.discard(name)
+                elif self.is_fresh(value):
+                    self.fresh.add(name)
+                    self.shared.discard(name)
+                else:
+                    raise Unsupported("list variable %s bound to a value whose sharing is unknown at line %d" % (name, ln))
+            return pre + "let %s := %s in\n" % (self.unit.ident(name), v)
+        if isinstance(target, ast.Subscript) and isinstance(target.value, ast.Name) and target.value.id in self.shared:
+            raise Unsupported("store into %s while another variable shares the object at line %d" % (target.value.id, ln))
+        return BalTr.s_assign(self, target, value, op, s)
+
+    def s_if(self, s, rest, tail):
+        """gen_c01.ImpTr.s_if with: isinstance on an attribute path (the path is refined inside the branches), and the
+        flow-sensitive sets (shared, refined) merged over the branches"""
+        ln = s.lineno
+        pre0 = ""
+        t = s.test
+        added = None
+        if isinstance(t, ast.Call) and isinstance(t.func, ast.Name) and t.func.id == "isinstance" and len(t.args) == 2 \
+                and not t.keywords and isinstance(t.args[0], ast.Attribute):
+            key = ast.unparse(t.args[0])
+            v, ty = self.expr(t.args[0])
+            if ty != "uops":
+                raise Unsupported("isinstance on a value of type %s at line %d" % (ty, ln))
+            self.nsc += 1
+            sc = "SC%d" % self.nsc
+            pre0 = self.take() + "let %s := %s in\n" % (self.unit.ident(sc), v)
+            self.env[sc] = ty
+            s = copy.copy(s)
+            s.test = copy.copy(t)
+            s.test.args = [ast.copy_location(ast.Name(id=sc, ctx=ast.Load()), t), t.args[1]]
+            self.refined[key] = sc
+            added = (key, sc)
+        st = self.sum_test(s.test)
+        defines_fn = contains(s.body + s.orelse, (ast.FunctionDef,)) is not None
+        returns = contains(s.body + s.orelse, (ast.Return,)) is not None
+        if not rest or defines_fn or returns:
+            mk = lambda body: self.stmts(body + rest, tail)
+            joined = None
+        else:
+            joined = [n for n in assigned(s.body + s.orelse)]
+            mk = None
+        saved_env, saved_cl = dict(self.env), dict(self.closures)
+        saved_shared, saved_ref, saved_view = set(self.shared), dict(self.refined), self.view
+        outs = []
+
+        def branch(body, refine):
+            self.env, self.closures = dict(saved_env), dict(saved_cl)
+            self.shared, self.refined, self.view = set(saved_shared), dict(saved_ref), saved_view
+            if refine:
+                self.env[refine[0]] = refine[1]
+            if mk:
+                text = mk(body)
+                outs.append((set(self.shared), dict(self.refined), self.view))
+                return text, None
+            text = self.stmts(body, lambda: "\0JOIN")
+            outs.append((set(self.shared), dict(self.refined), self.view))
+            return text, dict(self.env)
+
+        if st is None:
+            c, ct = self.expr(s.test)
+            c = self.truth(c, ct, s)
+            pre = self.take()
+            a, ea = branch(s.body, None)
+            b, eb = branch(s.orelse, None)
+            shape = lambda x, y: "if %s then\n%s\nelse\n%s" % (c, x, y)
+        else:
+            name, (_, ctor_t, ty_t), (_, ctor_f, ty_f) = st
+            pre = ""
+            a, ea = branch(s.body, (name, ty_t))
+            b, eb = branch(s.orelse, (name, ty_f))
+            xx = self.unit.ident(name)
+            shape = lambda x, y: "match %s with\n| %s %s =>\n%s\n| %s %s =>\n%s\nend" % (xx, ctor_t, xx, x, ctor_f, xx, y)
+        self.env, self.closures = dict(saved_env), dict(saved_cl)
+        self.shared = outs[0][0] | outs[1][0]
+        self.refined = {k: v for k, v in outs[0][1].items() if outs[1][1].get(k) == v}
+        if outs[0][2] != outs[1][2]:
+            raise Unsupported("row view open in one branch only at line %d" % ln)
+        self.view = outs[0][2]
+        if added:
+            self.refined.pop(added[0], None)
+            self.env.pop(added[1], None)
+        if joined is None:
+            return pre0 + pre + shape(textwrap.indent(a, "  "), textwrap.indent(b, "  "))
+        keep = []
+        for n in joined:
+            if st is not None and n == st[0]:
+                raise Unsupported("assignment to the scrutinee %s inside isinstance branches at line %d" % (n, ln))
+            if n in ea and n in eb and ea[n] == eb[n]:
+                keep.append(n)
+                self.env[n] = ea[n]
+            else:
+                self.env.pop(n, None)      # a later use is a free name -> Unsupported
+        out = "Ok %s" % self.tuple_of(keep)
+        a, b = a.replace("\0JOIN", out), b.replace("\0JOIN", out)
+        return pre0 + pre + "%s <- (%s) ;;\n" % (self.bind_pat(keep), shape(textwrap.indent(a, "  "), textwrap.indent(b, "  "))) \
+            + self.stmts(rest, tail)
